@@ -385,4 +385,14 @@ PROPS = {
             "sim": REAL_COMMON,
         },
     },
+    "C07": {
+        "parts": [
+            {"engine": "clonersim", "cfgs": ["", "nowire"], "share": 1, "chunk": 3000},
+        ],
+        "quick": {"seconds": 30, "chunk": 3000, "runs": 200000},
+        "thorough": {"seconds": 900, "chunk": 10000},
+        "rule": "TODO",
+        "assumptions": [],
+        "components": {"real": [], "stub": [], "sim": REAL_COMMON},
+    },
 }
